@@ -59,14 +59,20 @@ def run_seq_task(mod, task):
     hooks = mod.make_hooks(task["hooks"], task) if task["hooks"] else None
 
     def handler(hist):
-        r = seq.execute(cfg, hist, oracles, hooks)
+        task["level"] = len(hist)
+        sigbox = {}
+
+        def alpha_now(ref):
+            sigbox["sig"] = event_sig(ref, hist[-1]) if hist else "-"
+            return alphabet(ref, task)
+
+        r = seq.execute(cfg, hist, oracles, hooks, alphabet=alpha_now)
         viol = list(r.violations)
         dirty = bool(viol)
         if not dirty and hist and getattr(mod, "CHECK_PRISTINE", False):
             pass
-        last_sig = event_sig(r.ref, hist[-1]) if hist else "-"
-        task["level"] = len(hist)
-        enabled = alphabet(r.ref, task)
+        last_sig = sigbox.get("sig", "-")
+        enabled = r.enabled
         if not hist and task.get("part"):
             i, n = task["part"]
             enabled = [e for j, e in enumerate(enabled) if j % n == i]
